@@ -109,6 +109,8 @@ __CPROVER_assigns(EVENT_ASSIGNS)
 /* [C11:ev-excl]         */ __CPROVER_ensures(UST(self) == CAT_UNSOLICITED_STATE_FLUSH_IO_WRITE ==> (OLD(UST(self)) == CAT_UNSOLICITED_STATE_FLUSH_IO_WRITE || (OLD(UST(self)) == CAT_UNSOLICITED_STATE_FLUSH_IO_WRITE_WAIT && ST(self) != CAT_STATE_FLUSH_IO_WRITE)))
 /* [C01,C12:ev-noread]   */ __CPROVER_ensures(E.rd_calls == OLD(E.rd_calls))
 /* [C16:ev-cb-locked]    */ __CPROVER_ensures(E.cb_unlocked == OLD(E.cb_unlocked))
+/* [C10:ev-one-handler]  */ __CPROVER_ensures(E.h_calls >= OLD(E.h_calls) && E.h_calls <= OLD(E.h_calls) + 1 && E.vr_calls >= OLD(E.vr_calls) && E.vr_calls <= OLD(E.vr_calls) + 1 && E.vw_calls == OLD(E.vw_calls))
+/* [ENV:ev-reent]        */ __CPROVER_ensures(E.reent_trig >= OLD(E.reent_trig) && E.reent_trig <= OLD(E.reent_trig) + 1 && E.reent_hold >= OLD(E.reent_hold) && E.reent_hold <= OLD(E.reent_hold) + 1)
 /* [C11:ev-write]        */ __CPROVER_ensures(E.wr_calls == OLD(E.wr_calls) || (E.wr_calls == OLD(E.wr_calls) + 1 && OLD(UST(self)) == CAT_UNSOLICITED_STATE_FLUSH_IO_WRITE))
 /* [C14:ev-holdexit]     */ __CPROVER_ensures(self->hold_exit_status == OLD(self->hold_exit_status) || (self->hold_state_flag != 0 && self->hold_exit_status != 0))
 /* [C15:ev-ret]          */ __CPROVER_ensures(RET == CAT_STATUS_OK || RET == CAT_STATUS_BUSY)
@@ -121,7 +123,9 @@ __CPROVER_assigns(EVENT_ASSIGNS)
  * ------------------------------------------------------------------------------------------- */
 cat_status cat_service(struct cat_object *self)
 __CPROVER_requires(self == &h_obj && inv_wf(self) && inv_ring(self) && inv_ev(self) && inv_excl(self) && inv_hold(self) && inv_live(self))
-__CPROVER_assigns(*self, E, EL, G_EV, __CPROVER_object_whole(h_buf), __CPROVER_object_whole(h_vdata) SERVICE_EXTRA_ASSIGNS)
+/* standing assumption: size_t counters do not wrap (a line is shorter than 2^64 bytes) */
+__CPROVER_requires(self->length < (size_t)-1)
+__CPROVER_assigns(*self, E, EL, G_EV, g_sat, g_ndig, g_size, g_nesc, g_src, g_esc, __CPROVER_object_whole(h_buf), __CPROVER_object_whole(h_vdata) SERVICE_EXTRA_ASSIGNS)
 /* [INV:wf]              */ __CPROVER_ensures(inv_wf(self))
 /* [INV:ring]            */ __CPROVER_ensures(inv_ring(self))
 /* [INV:ev]              */ __CPROVER_ensures(inv_ev(self))
